@@ -154,6 +154,12 @@ def callee_src(kind, g, mix, position, name="callee", params=None):
     gen = "[T]" if mix.startswith("g") else ""
     if kind == "def":
         return [deco("guppy", g), f"def {name}{gen}({params}) -> {ret}:", "    " + body]
+    if kind == "def_shared":
+        # ONE decorator object applied to two functions; the callee is the second
+        d = deco("guppy", g)[1:]
+        d = d if "(" in d else d + "()"
+        return [f"_shared_deco = {d}", "@_shared_deco", f"def earlier_{name}{gen}({params}) -> {ret}:", "    " + body,
+                "@_shared_deco", f"def {name}{gen}({params}) -> {ret}:", "    " + body]
     if kind == "def_explicit":
         return [deco("guppy", g, explicit_false=True), f"def {name}{gen}({params}) -> {ret}:", "    " + body]
     assert kind == "decl"
@@ -255,13 +261,13 @@ def all_items(quick=False):
     ctxs = contexts()
     gs = subsets(FLAGS)
     for ctx in ctxs:
-        for ckind in ("def", "decl", "def_explicit"):
+        for ckind in ("def", "decl", "def_explicit", "def_shared"):
             for g in gs:
                 for mix in MIXES:
                     for pos in POSITIONS:
                         if quick and ckind == "decl" and pos != "stmt":
                             continue
-                        if ckind == "def_explicit" and (pos != "stmt" or mix not in ("q", "a")):
+                        if ckind in ("def_explicit", "def_shared") and (pos != "stmt" or mix not in ("q", "a")):
                             continue
                         items.append({"fam": "user", "ctx": ctx, "ckind": ckind,
                                       "g": list(g), "mix": mix, "position": pos})
